@@ -999,28 +999,35 @@ func (r *Runtime) stringproto_toUpperCase(call FunctionCall) Value {
 	return s.toUpper()
 }
 
+// trimString works on the UTF-16 code units (all white space characters are in the BMP), so that unpaired
+// surrogates elsewhere in the string are preserved.
+func trimString(s String, left, right bool) String {
+	isWhiteSpace := func(c uint16) bool {
+		return strings.ContainsRune(parser.WhitespaceChars, rune(c))
+	}
+	start, end := 0, s.Length()
+	for left && start < end && isWhiteSpace(s.CharAt(start)) {
+		start++
+	}
+	for right && end > start && isWhiteSpace(s.CharAt(end-1)) {
+		end--
+	}
+	return s.Substring(start, end)
+}
+
 func (r *Runtime) stringproto_trim(call FunctionCall) Value {
 	r.checkObjectCoercible(call.This)
-	s := call.This.toString()
-
-	// TODO handle invalid UTF-16
-	return newStringValue(strings.Trim(s.String(), parser.WhitespaceChars))
+	return trimString(call.This.toString(), true, true)
 }
 
 func (r *Runtime) stringproto_trimEnd(call FunctionCall) Value {
 	r.checkObjectCoercible(call.This)
-	s := call.This.toString()
-
-	// TODO handle invalid UTF-16
-	return newStringValue(strings.TrimRight(s.String(), parser.WhitespaceChars))
+	return trimString(call.This.toString(), false, true)
 }
 
 func (r *Runtime) stringproto_trimStart(call FunctionCall) Value {
 	r.checkObjectCoercible(call.This)
-	s := call.This.toString()
-
-	// TODO handle invalid UTF-16
-	return newStringValue(strings.TrimLeft(s.String(), parser.WhitespaceChars))
+	return trimString(call.This.toString(), true, false)
 }
 
 func (r *Runtime) stringproto_substr(call FunctionCall) Value {
